@@ -159,3 +159,15 @@ func ZZ_C08_selftest_wrongclaim() {
 	_, _ = c.Seal(nil, nil)
 	zzAssert(c.sequenceNumber[10] == seq0[10], "byte 10 of seq never changes (false)")
 }
+
+// RFC 9180 §5.2: every sealed ciphertext uses nonce = base_nonce XOR I2OSP(seq, Nn) and the
+// sequence number advances by exactly one (same step lemmas, registered under C07 as well)
+//
+//zz: prop=C07 tier=quick backend=bv
+func ZZ_C07_seal_open_nonce_sequence() {
+	if zzPick("which", 0, 1) == 0 {
+		ZZ_C08_seal_step()
+	} else {
+		ZZ_C08_open_step()
+	}
+}
